@@ -11,6 +11,8 @@ from natives_fs import PStr, text_of
 from fmt_model import SymStr, Sink, str_bytes
 import c07_print0 as c7
 
+STARTS = [x for x in c7.STARTS if isinstance(x, str)]
+
 # ---- vocabulary of format items: (text, kind, payload)
 LITERALS = ["x", " ", "é", "a-b", "{}"]
 ESCAPES = {"\\a": 7, "\\b": 8, "\\f": 12, "\\n": 10, "\\r": 13, "\\t": 9, "\\v": 11, "\\\\": 92, "\\0": 0, "\\101": 65, "\\7": None, "\\012": 10}
@@ -236,7 +238,7 @@ def explore(n_items, shape_name, funcs, index, enums, tier="quick", vocab=None):
     pn = path_natives(as_path)
     nat.update(pn)
     m = Machine(funcs, index, enums, models, natives=nat, max_steps=2000000)
-    m.base_constraints = [z3.And(c >= 1, c <= 127, c != 47) for nm in names for c in nm] + [start_i >= 0, start_i < len(c7.STARTS)] + [
+    m.base_constraints = [z3.And(c >= 1, c <= 127, c != 47) for nm in names for c in nm] + [start_i >= 0, start_i < len(STARTS)] + [
         z3.And(i >= 0, i < len(vocab)) for i in item_i]
     for nm in names:
         if len(nm) == 1:
@@ -249,8 +251,8 @@ def explore(n_items, shape_name, funcs, index, enums, tier="quick", vocab=None):
         m.reset_path(m.pending.pop())
         state.update(sink=None)
         try:
-            st = m.decide_int(start_i, list(range(len(c7.STARTS) - 1)))
-            start = c7.STARTS[len(c7.STARTS) - 1 if st is None else st]
+            st = m.decide_int(start_i, list(range(len(STARTS) - 1)))
+            start = STARTS[len(STARTS) - 1 if st is None else st]
             chosen = []
             for k in range(n_items):
                 c = m.decide_int(item_i[k], list(range(len(vocab) - 1)))
